@@ -253,6 +253,9 @@ func runC10(ctx *runCtx) {
 	rep := ctx.rep
 	rep.Rule = "calls {Write, streaming Writer, Read of a single-frame message, Read of a fragmented message with an interleaved ping and an empty fragment, Ping} each with its own context, cancelled {after the call succeeded (then a liveness round trip), while the call is blocked (for reads: with nothing received, inside a header, inside a payload, inside a continuation frame, inside an interleaved control frame), before the call (also: ten rounds of a call with a dead context followed by the same call with a live one)}; a call queued behind another one that then blocks in the transport itself and is cancelled at varied delays, sizes 0..70000, both roles, compression on/off. " +
 		"oracle: after success cancellation has no effect (round trip succeeds); a blocked/cancelled call returns an error within 2 s and (read/write) the connection is closed. distinct = case tuple"
+	if cirTraceReplay(ctx) {
+		return
+	}
 	if ctx.replay != "" {
 		var cc c10Case
 		if err := loadReplay(ctx.replay, &cc); err == nil && cc.Op != "" {
@@ -346,6 +349,7 @@ func runC10(ctx *runCtx) {
 		timeoutDifferential(rep, newRng(ctx.seed, "c10timeout"), progs, &lines, &expect, &what)
 		askAndCompare(ctx, lines, expect, what, "timeout-goroutine-model-vs-impl")
 	}
+	cirTraceValidation(ctx, cirTraceN(ctx))
 	rep.sample(cases[0])
 	rep.sample(cases[len(cases)-1])
 }
